@@ -354,15 +354,32 @@ func timeouts(t *testing.T, rep *ev.Report) {
 	for _, I := range []time.Duration{30 * time.Second, 180 * time.Second, -45 * time.Second} {
 		// a negative value encodes "-timeout-http-idle 0s with -timeout-http-read 45s": per net/http (which the flag documentation
 		// refers to) the read timeout then is the idle timeout - for HTTP/1.1 clients just as for HTTP/2 clients
-		for _, proto := range []string{"h1", "h2"} {
-			for _, nreq := range []int{1, 2, 3} { // 3 = two served requests, then (h2) a third one cancelled by RST_STREAM while in flight / (h1) nothing more
-				if nreq == 3 && proto == "h1" {
-					continue
-				}
-				desc := fmt.Sprintf("idle-timeout I=%v proto=%s after %d request(s)", I, proto, nreq)
-				if nreq == 3 {
-					desc = fmt.Sprintf("idle-timeout I=%v proto=h2 after 2 served requests and one request cancelled by RST_STREAM while in flight", I)
-				}
+		// what the client did before it fell silent. HTTP/1.1: one or two exchanges. HTTP/2: every history of up to three
+		// letters over S (request served), C (request cancelled by RST_STREAM while in flight), and - ending the history -
+		// G (client GOAWAY on an idle connection), X (client GOAWAY while a request is in flight, then RST_STREAM of it),
+		// R (client GOAWAY while a request is in flight, which is then answered)
+		type hist struct {
+			proto   string
+			letters string
+		}
+		hists := []hist{{"h1", "S"}, {"h1", "SS"}}
+		var gen func(cur string)
+		gen = func(cur string) {
+			if cur != "" {
+				hists = append(hists, hist{"h2", cur})
+			}
+			if len(cur) == 3 || strings.ContainsAny(cur, "GXR") {
+				return
+			}
+			for _, l := range "SCGXR" {
+				gen(cur + string(l))
+			}
+		}
+		gen("")
+		for _, hi := range hists {
+			{
+				proto, letters := hi.proto, hi.letters
+				desc := fmt.Sprintf("idle-timeout I=%v proto=%s after client history %s (S served, C cancelled by RST_STREAM in flight, G client GOAWAY when idle, X GOAWAY then RST_STREAM of the request in flight, R GOAWAY then the request in flight is answered)", I, proto, letters)
 				I := I
 				opts := func() bubble.StackOpts { return binaryStack("10s", I.String()) }
 				if I < 0 {
@@ -385,49 +402,64 @@ func timeouts(t *testing.T, rep *ev.Report) {
 						synctest.Wait()
 						cl.Write(h2wire.SettingsAck())
 					}
-					served := nreq
-					if nreq == 3 {
-						served = 2
+					release := make(chan struct{})
+					st.Backend.Hold = func(r *bubble.RecReq) {
+						if strings.HasPrefix(r.Path, "/held") {
+							<-release
+						}
 					}
-					for i := 0; i < served; i++ {
-						if proto == "h1" {
+					want := 0
+					for i, l := range letters {
+						id := uint32(1 + 2*i)
+						switch {
+						case proto == "h1":
 							cl.SendH1(bubble.Req{Path: fmt.Sprintf("/i%d", i), Host: "localhost"})
-						} else {
-							cl.SendH2(uint32(1+2*i), bubble.Req{Path: fmt.Sprintf("/i%d", i), Host: "localhost"})
+							want++
+						case l == 'S':
+							cl.SendH2(id, bubble.Req{Path: fmt.Sprintf("/i%d", i), Host: "localhost"})
+							want++
+						case l == 'G':
+							cl.Write(h2wire.GoAway(0, 0, nil))
+						default: // C X R: a request in flight
+							cl.SendH2(id, bubble.Req{Path: fmt.Sprintf("/held%d", i), Host: "localhost"})
+							want++
+							synctest.Wait()
+							if l == 'X' || l == 'R' {
+								cl.Write(h2wire.GoAway(0, 0, nil))
+								synctest.Wait()
+							}
+							if l == 'C' || l == 'X' {
+								cl.Write(h2wire.RST(id, 8)) // CANCEL
+								synctest.Wait()
+							}
+							close(release)
+							release = make(chan struct{})
+							rel := release
+							st.Backend.Hold = func(r *bubble.RecReq) {
+								if strings.HasPrefix(r.Path, "/held") {
+									<-rel
+								}
+							}
 						}
 						synctest.Wait()
 						time.Sleep(time.Second)
 						synctest.Wait()
 					}
-					if nreq == 3 {
-						release := make(chan struct{})
-						st.Backend.Hold = func(r *bubble.RecReq) {
-							if r.Path == "/cancelled" {
-								<-release
-							}
-						}
-						cl.SendH2(5, bubble.Req{Path: "/cancelled", Host: "localhost"})
-						synctest.Wait()
-						cl.Write(h2wire.RST(5, 8)) // CANCEL
-						synctest.Wait()
-						close(release)
-						synctest.Wait()
-					}
-					if st.Backend.Count() != nreq {
-						rep.HarnessError("%s: backend saw %d requests", desc, st.Backend.Count())
+					if st.Backend.Count() != want {
+						rep.HarnessError("%s: backend saw %d requests, expected %d", desc, st.Backend.Count(), want)
 						return
 					}
 					rep.Add("evaluations", 1)
 					rep.Note("distinct_nontrivial", desc)
-					if cl.Srv.NumCloses() != 0 {
+					if cl.Srv.NumCloses() != 0 && !strings.ContainsAny(letters, "GXR") {
 						rep.HarnessError("%s: connection closed right after the request", desc)
 						return
 					}
 					time.Sleep(I + 3*time.Second) // h2: GOAWAY at I, close within the 1 s GOAWAY timer
 					synctest.Wait()
 					if cl.Srv.NumCloses() == 0 {
-						rep.Violate(map[string]any{"kind": "idle-timeout-not-enforced", "proto": proto}, map[string]any{"I": I.String(), "proto": proto, "requests": nreq},
-							"%s: the idle connection is still open %v after its last activity (configured idle timeout %v)", desc, I+3*time.Second, I)
+						rep.Violate(map[string]any{"kind": "idle-timeout-not-enforced", "proto": proto}, map[string]any{"I": I.String(), "proto": proto, "history": letters},
+							"%s: the idle connection is still open %v after its last activity (configured idle timeout %v)", desc, I+4*time.Second, I)
 					}
 				})
 				if res.Panic != nil {
